@@ -202,6 +202,7 @@ CODES = {1: "trainer table invariants (wf_ttabb / closedb / levels <= 10)", 2: "
 def run(ctx):
     import extract_consts
     consts = extract_consts.main()
+    case_errors = set()
     n = ctx.scale(36, 1500)
     budget = {"cap": ctx.scale(4000, 20000), "per_level": ctx.scale(0.25, 0.5), "per_model": ctx.scale(0.9, 1.3)}
     sc_dir = common.scratch()
@@ -270,7 +271,12 @@ def run(ctx):
         if len(samples) < 4 and rows:
             samples.append({"kind": cfg["kind"], "ngram": cfg["ngram"], "encoding": cfg["encoding"], "alphabet": T.alphabet,
                             "training": cfg["passwords"][:6], "rows": rows[:6]})
-        cases.append(coq_case(T, sc, G, E, rows, consts))
+        try:
+            cases.append(coq_case(T, sc, G, E, rows, consts))
+        except KeyError as e:
+            # a constant the model needs could not be extracted from the changed source: the correspondence cannot be
+            # stated (reported as broken below), the direct oracle above still judges the implementation
+            case_errors.add("constant %s not extracted from the source (see the gen obligation)" % e)
         case_cfg.append(cfg)
 
     # ---- correspondence: Coq evaluates the models on the same tables / strings
@@ -285,7 +291,7 @@ def run(ctx):
                ";\n".join(cases[s:s + per]), "].",
                "Eval vm_compute in (failing_codes check_c11 cases)."]
         shards.append(("s%04d" % (s // per), "\n".join(src)))
-    corr = []
+    corr = [("cases-could-be-stated", False, "; ".join(sorted(case_errors)))] if case_errors else []
     for (name, idx, log), s in zip(common.run_case_shards("C11", shards), range(0, len(cases), per)):
         if idx is None:
             corr.append(("omen-level:" + name, False, log[-1200:]))
